@@ -145,3 +145,25 @@ def cstep (s : CSt) (e : CEv) : CSt :=
   { s1 with reading := !(s1.terminated && s1.checklist.isEmpty) }
 
 end SFV.Loop
+
+namespace SFV.Loop
+
+/-! ### the closed loop of one instance: combinator → loop-when → body → back edge -/
+
+/-- one trip: the combinator numbers the arrival; the loop-when step evaluates the condition on the numbered inputs:
+    true → the body runs, its output (same tag) goes to the loop output step and back to the combinator;
+    false → `IterationTerminationToken(tag)` goes to the loop output step (`_on_false`) and the instance stops -/
+def trip {V} (cond : Tag → Bool) (body : Tag → V) (m : Counters) (arrival : Tag) : Counters × Ev V × Option Tag :=
+  let r := number m arrival
+  if cond r.2 then (r.1, .data ⟨r.2, body r.2⟩, some r.2) else (r.1, .iterTerm r.2, none)
+
+/-- what reaches the loop output step from one instance whose external inputs carry `arrival` (fuel-bounded) -/
+def cycle {V} (cond : Tag → Bool) (body : Tag → V) : Nat → Counters → Tag → List (Ev V)
+  | 0, _, _ => []
+  | f + 1, m, arrival =>
+      let r := trip cond body m arrival
+      r.2.1 :: (match r.2.2 with
+                | some t => cycle cond body f r.1 t
+                | none => [])
+
+end SFV.Loop
